@@ -9,6 +9,8 @@ import traceback
 sys.path.insert(0, os.path.dirname(os.path.abspath(__file__)))
 sys.setrecursionlimit(20000)
 
+import signal
+signal.signal(signal.SIGPIPE, signal.SIG_DFL)
 import astdb
 from astdb import AnalysisBroken
 from report import Report
@@ -21,6 +23,11 @@ PROPS = {
     'C11': ('c11', 'proof', ['SUNalg']),
     'C06': ('c06', 'proof', ['SUNalg', 'const']),
     'C14': ('c14', 'proof', ['SUNalg', 'instantiate']),
+    'C08': ('c08', 'proof', ['SUNalg', 'instantiate']),
+    'C16': ('c16', 'proof', ['SUNalg', 'instantiate']),
+    'C09': ('c09', 'proof', ['SUNalg', 'instantiate']),
+    'C12': ('c12', 'other', ['SUNalg']),
+    'C15': ('c15', 'other', ['SUNalg', 'instantiate', 'const', 'SQuIDS', 'MatrixExp']),
 }
 
 
